@@ -11,7 +11,7 @@
     same decision. *)
 From Coq Require Import Lia.
 From GW Require Import Base CardXml CardWire CardWireProofs CardWireProofs2.
-From GW Require ServerTotal.
+From GW Require ServerTotal CardWireUint CardWireUint2.
 Module ST := ServerTotal.
 
 (* ------------------------------------------------------------------------- *)
@@ -389,7 +389,7 @@ Qed.
 (* ------------------------------------------------------------------------- *)
 (** * nresults.  The two models read the number with two independently written models
       of strings.TrimSpace + strconv.ParseUint; their agreement is the premise
-      [uint_agree] of this section (discharged below where possible). *)
+      [uint_agree] of this section, discharged at the end with CardWireUint2.uint_agree_all. *)
 
 Section WithUint.
 Hypothesis uint_agree : forall s, Rres (fun x y : N => y = x) (unmarshal_uint s) (ST.parse_uint s).
@@ -714,3 +714,58 @@ Proof.
 Qed.
 
 End WithUint.
+
+(* ------------------------------------------------------------------------- *)
+(** * The statement without premise *)
+
+Theorem models_agree up path t :
+  same_decision up path (handle_report up path t) (st_decode (fun s => is_some (up s)) (tr t)).
+Proof. exact (models_agree_decoded CardWireUint2.uint_agree_all up path t). Qed.
+
+(** the same, quantified over ServerTotal's trees *)
+Theorem models_agree_st up path T :
+  same_decision up path (handle_report up path (untr T)) (st_decode (fun s => is_some (up s)) T).
+Proof. pose proof (models_agree up path (untr T)) as H. rewrite tr_untr in H. exact H. Qed.
+
+Lemma fold_opt_ext {A T} (f g : T -> A -> option T) l : (forall a x, f a x = g a x) ->
+  forall acc, ST.fold_opt f l acc = ST.fold_opt g l acc.
+Proof. intros H. induction l as [|x l IH]; intros acc; simpl; auto. rewrite H. destruct (g acc x); auto. Qed.
+
+Lemma st_decode_ext u1 u2 T : (forall s, u1 s = u2 s) -> st_decode u1 T = st_decode u2 T.
+Proof.
+  intros H. unfold st_decode, ST.um_card_report.
+  assert (E : forall d acc T', ST.um_multiget ST.NS_CARD "addressbook-multiget" u1 d acc T'
+                               = ST.um_multiget ST.NS_CARD "addressbook-multiget" u2 d acc T').
+  { intros d acc T'. unfold ST.um_multiget, ST.um_struct. destruct T' as [ns l a k| |]; auto.
+    f_equal. destruct (ST.name_ok _ ns l); auto. destruct (ST.fold_opt ST.no_attr a acc); auto.
+    rewrite (fold_opt_ext _ (fun acc k =>
+       match ST.um_sel d (ST.mg_sel acc) k with
+       | None => None
+       | Some (Some s) => Some {| ST.mg_sel := s; ST.mg_hrefs := ST.mg_hrefs acc |}
+       | Some None =>
+         if ST.kid_is k ST.NS_DAV "href" then
+           match ST.into_slice (ST.um_href u2) "" d (ST.mg_hrefs acc) k with
+           | Some v => Some {| ST.mg_sel := ST.mg_sel acc; ST.mg_hrefs := v |} | None => None end
+         else Some acc
+       end)); [reflexivity|].
+    intros a0 x. destruct (ST.um_sel d (ST.mg_sel a0) x) as [[?|]|]; auto.
+    destruct (ST.kid_is x ST.NS_DAV "href"); auto. unfold ST.into_slice, ST.um_href.
+    destruct x; auto. rewrite H. reflexivity. }
+  rewrite E. reflexivity.
+Qed.
+
+(** and down to ServerTotal's response: for a REPORT request with an XML content type
+    whose body is the tree [tr t], with a backend, not on the well-known path, the status
+    and the calls ServerTotal computes are those of [st_continue] on a stage that makes
+    the decision of [handle_report] *)
+Theorem models_agree_serve env r up path t :
+  ST.ae_has_backend env = true -> String.eqb (ST.r_path r) "/.well-known/carddav" = false ->
+  ST.r_method r = "REPORT" -> ST.is_content_xml r = true -> ST.r_xml r = ST.XTree (tr t) ->
+  (forall s, ST.r_url_ok r s = is_some (up s)) ->
+  exists stage, ST.serve (ST.CCard env r) = ST.finish (st_continue env stage) /\
+                same_decision up path (handle_report up path t) stage.
+Proof.
+  intros Hb Hp Hm Hc Hx Hu. exists (st_decode (ST.r_url_ok r) (tr t)). split.
+  - apply st_factor_serve; assumption.
+  - rewrite (st_decode_ext (ST.r_url_ok r) (fun s => is_some (up s)) (tr t) Hu). apply models_agree.
+Qed.
